@@ -533,7 +533,7 @@ func runC18(c c18Case) kit.Result {
 	case <-done:
 	case <-time.After(60 * time.Second):
 		abandon = true
-		res.Err = fmt.Errorf("goroutines did not finish within 60 s (inconclusive)")
+		res.Err = fmt.Errorf("the goroutines of a millisecond-scale workload are still stuck after 60 s (deadlock)")
 		return res
 	}
 	if e := firstErr.Load(); e != nil {
